@@ -253,6 +253,13 @@ def run(ctx):
     certs = 0
     ifaces = {"glpk": 0, "glpk_exact": 0}
     hist = {}
+    for entry in common.load_corpus("C04"):
+        truth0 = lpcert.certify([fbagen.net_lp(entry["spec"])[0]])[0]
+        f0 = check_instance(entry["spec"], truth0, entry.get("interface", "glpk"), entry.get("history", "plain"))
+        if f0:
+            ctx.violations.append({"engine": "cobrapy vs certified exact LP (corpus case)", "spec": entry["spec"], "interface": entry.get("interface", "glpk"),
+                                   "history": entry.get("history", "plain"), "certified": truth0["status"], "failures": f0[:6]})
+            break
     while done < n and not ctx.violations:
         specs = [fbagen.gen_fba_spec(rng) for _ in range(min(200, n - done))]
         truths = lpcert.certify([fbagen.net_lp(s)[0] for s in specs])
